@@ -215,6 +215,21 @@ func CheckMain(args []string) int {
 			opts.All = true
 			opts.TimeoutS = 30
 		}
+		if tier != "thorough" {
+			// obligations that are generated but not claimed (documented assumptions) are only run in the thorough tier
+			var res []*regexp.Regexp
+			for _, u := range cl.Unclaimed {
+				res = append(res, regexp.MustCompile(u.Pattern))
+			}
+			opts.Skip = func(n string) bool {
+				for _, re := range res {
+					if re.MatchString(n) {
+						return true
+					}
+				}
+				return false
+			}
+		}
 		RunObligations(results, opts)
 	}
 
